@@ -1,6 +1,7 @@
 package rules
 
 import (
+	"os"
 	"fmt"
 	"go/token"
 	"go/types"
@@ -506,6 +507,38 @@ func c03Position(c *Ctx, F *model.Fields, fn, vu *ssa.Function, loopHdr int, ele
 	if valid >= 0 {
 		track = append(track, valid)
 	}
+	// a verdict that reaches its test through a merged boolean (the ok result of an inlined helper): the conditions it is
+	// merged from are tracked too, so that the test separates the paths again
+	{
+		have := map[int]bool{}
+		for _, t := range track {
+			have[t] = true
+		}
+		for _, b := range sortedBlocks(loop.Blocks) {
+			iff, ok := b.Instrs[len(b.Instrs)-1].(*ssa.If)
+			if !ok {
+				continue
+			}
+			if _, isPhi := iff.Cond.(*ssa.Phi); !isPhi {
+				continue
+			}
+			m := map[int]bool{}
+			A.Cond(iff.Cond).Atoms(m)
+			var extra []int
+			for a := range m {
+				if !have[a] {
+					extra = append(extra, a)
+				}
+			}
+			sort.Ints(extra)
+			for _, a := range extra {
+				if len(track) < 14 {
+					track = append(track, a)
+					have[a] = true
+				}
+			}
+		}
+	}
 	q, err := A.NewQuery(track)
 	if err != nil {
 		R.Unknown("C03.R1", key, cons, pos, err.Error())
@@ -611,9 +644,20 @@ func c03Position(c *Ctx, F *model.Fields, fn, vu *ssa.Function, loopHdr int, ele
 					okVal = true
 				} else if ph, ok := st2.Val.(*ssa.Phi); ok {
 					okVal = true
-					for _, e := range ph.Edges {
+					for i, e := range ph.Edges {
 						es := A.Sym.Of(e)
 						if es != want && es != rw {
+							// the merged value may carry another operand on paths that cannot reach this append (the "" a
+							// helper returns together with ok == false): the operand is taken only under a condition that
+							// the state at the append excludes
+							if f := A.PhiTakes(ph, i); f != nil {
+								if infeasible, _ := q.Holds(st, pa.Not(f)); infeasible {
+									continue
+								}
+							}
+							if siblingFlagExcludes(ph, i, cl.Block()) {
+								continue
+							}
 							okVal = false
 							why = "kept value may be " + es
 						}
@@ -940,4 +984,40 @@ func foldRunePredicate(fn *ssa.Function, r rune) (res, ok bool) {
 		prev, b = b, next
 	}
 	return false, false
+}
+
+// siblingFlagExcludes: the φ operand i of ph cannot be the value in force at block `at`: a boolean φ g of the same block
+// (the ok result that travels with the value) is false on that very edge, and `at` lies under the true edge of a test of g.
+func siblingFlagExcludes(ph *ssa.Phi, i int, at *ssa.BasicBlock) bool {
+	if os.Getenv("BMDEBUG") != "" {
+		fmt.Fprintf(os.Stderr, "sibling: ph=%s block=%d edge=%d at=%d\n", ph.Name(), ph.Block().Index, i, at.Index)
+		for _, in := range ph.Block().Instrs {
+			fmt.Fprintf(os.Stderr, "   %s\n", in.String())
+		}
+		for d := at; d != nil; d = d.Idom() {
+			fmt.Fprintf(os.Stderr, "   dom chain %d last=%s\n", d.Index, d.Instrs[len(d.Instrs)-1].String())
+		}
+	}
+	for _, in := range ph.Block().Instrs {
+		g, ok := in.(*ssa.Phi)
+		if !ok {
+			break
+		}
+		if g == ph || i >= len(g.Edges) || !model.IsFalse(g.Edges[i]) {
+			continue
+		}
+		for d := at; d != nil; d = d.Idom() {
+			if d == ph.Block() {
+				// the test may sit at the end of the φ's own block
+			}
+			idom := d.Idom()
+			if idom == nil {
+				break
+			}
+			if iff, ok := idom.Instrs[len(idom.Instrs)-1].(*ssa.If); ok && iff.Cond == ssa.Value(g) && len(idom.Succs) == 2 && idom.Succs[0] == d && len(d.Preds) == 1 && ph.Block().Dominates(idom) {
+				return true
+			}
+		}
+	}
+	return false
 }
